@@ -1,7 +1,7 @@
 (* C09 — proofs about the contents of the detector's evidence (C09/EvidenceModel.v) and its
    admission by an honest full node (C11/Model.v: Pool.verify / VerifyLightClientAttack). *)
 From Coq Require Import List ZArith NArith Bool Lia.
-From TM Require Import Generated.Consts C07.Model C07.Proofs C09.Model C09.Proofs C09.EvidenceModel.
+From TM Require Import Generated.Consts C07.Model C07.Proofs C09.Model C09.Proofs C09.EvidenceModel C09.EvidenceRun.
 From TM Require C11.Model C11.Spec C11.SpecProofs.
 Import ListNotations.
 Open Scope Z_scope.
@@ -751,3 +751,143 @@ Proof.
 Qed.
 
 End PE.
+
+(* ------------------------------------------------------------------ EvidenceRun.v is Model.v's call tree *)
+
+Section Ref.
+Variable sig : Type.
+Variable sv : key -> signmsg -> sig -> bool.
+Variable hash : header -> Z.
+Variable vhash : list validator -> Z.
+Variable bid_hash : blockid -> Z.
+Variable an : Z -> N.
+Variable hn : Z -> N.
+Variable W : Type.
+Variable ask : W -> pid -> Z -> preply sig * W.
+Variable rank : pid -> Z.
+
+Notation res := (res sig W).
+Definition pr (r : res) : option cerr * client sig * st sig W := let '(e, c, s, _) := r in (e, c, s).
+
+Notation handle_full := (handle_full sig sv hash vhash bid_hash an hn W ask).
+Notation handle_conflicting := (handle_conflicting sig sv hash vhash bid_hash W ask).
+
+Lemma detect_loop_full : forall P c now trace msgs s a matched rm,
+  (let '(r, sa) := detect_loop sig (handle_full P c now trace) (s, a) msgs matched rm in (r, fst sa)) =
+  detect_loop sig (fun s b i => handle_conflicting P c now s trace b i) s msgs matched rm.
+Proof.
+  intros P c now trace. induction msgs as [|m msgs IH]; intros s a matched rm.
+  - cbn. destruct matched; reflexivity.
+  - destruct m as [|b i|i| |]; cbn [detect_loop].
+    + apply IH.
+    + unfold EvidenceRun.handle_full at 1.
+      destruct (handle_conflicting P c now s trace b i) as [r s'] eqn:E.
+      destruct r; try reflexivity. apply IH.
+    + apply IH.
+    + apply IH.
+    + reflexivity.
+Qed.
+
+Notation detect_divergence_full := (detect_divergence_full sig sv hash vhash bid_hash an hn W ask rank).
+Notation detect_divergence := (detect_divergence sig sv hash vhash bid_hash W ask rank).
+
+Lemma detect_divergence_full_pr : forall P c s a trace now,
+  pr (detect_divergence_full P c s a trace now) = detect_divergence P c s trace now.
+Proof.
+  intros. unfold EvidenceRun.detect_divergence_full, C09.Model.detect_divergence.
+  destruct trace as [|t0 [|t1 tr]]; try reflexivity.
+  destruct (cl_witnesses sig c) as [|w0 ws] eqn:Ew; [reflexivity|].
+  destruct (compare_all sig hash W ask s (last (t0 :: t1 :: tr) t0) (arrival_order rank (w0 :: ws))) as [msgs s1].
+  pose proof (detect_loop_full P c now (t0 :: t1 :: tr) (firstn (length (w0 :: ws)) msgs) s1 a false []) as L.
+  destruct (detect_loop sig (handle_full P c now (t0 :: t1 :: tr)) (s1, a) (firstn (length (w0 :: ws)) msgs) false [])
+    as [r [s2 a2]].
+  cbn [fst] in L. rewrite <- L.
+  destruct r; try reflexivity; destruct (remove_witnesses (w0 :: ws) to_remove); reflexivity.
+Qed.
+
+Notation vsap_full := (vsap_full sig sv hash vhash bid_hash an hn W ask rank).
+Notation vsap := (verify_skipping_against_primary sig sv hash vhash bid_hash W ask rank).
+
+Lemma vsap_full_pr : forall fuel P c s a t u now,
+  pr (vsap_full fuel P c s a t u now) = vsap fuel P c s t u now.
+Proof.
+  induction fuel as [|fuel IH]; intros; [reflexivity|].
+  cbn [EvidenceRun.vsap_full C09.Model.verify_skipping_against_primary].
+  destruct (verify_skipping sig sv hash vhash bid_hash W ask P (cl_primary sig c) s t u now) as [[tr|e] s1].
+  - apply detect_divergence_full_pr.
+  - destruct e as [v to| | |]; try reflexivity.
+    + destruct v; try reflexivity.
+      destruct (to =? lb_height sig u); [reflexivity|].
+      destruct (find_new_primary sig W ask rank c s1 (lb_height sig u) true) as [[[repl|e] c1] s2]; [|reflexivity].
+      destruct (negb (lb_hash sig hash repl =? lb_hash sig hash u)); [reflexivity|]. apply IH.
+Qed.
+
+Notation seq_loop_full := (seq_loop_full sig sv hash vhash bid_hash an hn W ask rank).
+Notation seq_loop := (verify_sequential_loop sig sv hash vhash bid_hash W ask rank).
+
+Lemma seq_loop_full_pr : forall fuel P c s a u now verified height trace,
+  pr (seq_loop_full fuel P c s a u now verified height trace) = seq_loop fuel P c s u now verified height trace.
+Proof.
+  induction fuel as [|fuel IH]; intros; [reflexivity|].
+  cbn [EvidenceRun.seq_loop_full C09.Model.verify_sequential_loop].
+  destruct (lb_height sig u <? height); [apply detect_divergence_full_pr|].
+  destruct (if height =? lb_height sig u then (inl u, c, s) else light_block_from_primary sig W ask rank c s height)
+    as [[fetched c1] s1].
+  destruct fetched as [interim|e].
+  - destruct (verify_adjacent sig sv hash vhash bid_hash P verified interim now); try reflexivity.
+    + apply IH.
+    + destruct (lb_height sig interim =? lb_height sig u); [reflexivity|].
+      destruct (find_new_primary sig W ask rank c1 s1 (lb_height sig u) true) as [[[repl|e] c2] s2]; [|reflexivity].
+      destruct (negb (lb_hash sig hash repl =? lb_hash sig hash u)); [reflexivity|]. apply IH.
+  - destruct e; reflexivity.
+Qed.
+
+Notation verify_func_full := (verify_func_full sig sv hash vhash bid_hash an hn W ask rank).
+Notation verify_func := (verify_func sig sv hash vhash bid_hash W ask rank).
+
+Lemma verify_func_full_pr : forall P c s a t u now,
+  pr (verify_func_full P c s a t u now) = verify_func P c s t u now.
+Proof.
+  intros. unfold EvidenceRun.verify_func_full, C09.Model.verify_func, C09.Model.verify_sequential.
+  destruct (p_sequential P); [apply seq_loop_full_pr | apply vsap_full_pr].
+Qed.
+
+Notation vlb_full := (verify_light_block_full sig sv hash vhash bid_hash an hn W ask rank).
+Notation vlb := (verify_light_block sig sv hash vhash bid_hash W ask rank).
+
+Lemma vlb_full_pr : forall P c s a u now, pr (vlb_full P c s a u now) = vlb P c s u now.
+Proof.
+  intros. unfold EvidenceRun.verify_light_block_full, C09.Model.verify_light_block.
+  destruct (cl_latest sig c) as [latest|]; [|reflexivity].
+  destruct (cl_store sig c) as [|firstb rest]; [reflexivity|].
+  destruct (lb_height sig latest <=? lb_height sig u).
+  - pose proof (verify_func_full_pr P c s a latest u now) as L.
+    destruct (verify_func_full P c s a latest u now) as [[[e c1] s1] a1]. cbn [pr] in L. rewrite <- L.
+    destruct e; reflexivity.
+  - destruct (lb_height sig u <? lb_height sig firstb).
+    + destruct (backwards sig hash W ask rank _ c s (lb_hdr sig firstb) (lb_hdr sig u)) as [[e c1] s1].
+      destruct e; reflexivity.
+    + destruct (store_before sig (firstb :: rest) (lb_height sig u)) as [closest|]; [|reflexivity].
+      pose proof (verify_func_full_pr P c s a closest u now) as L.
+      destruct (verify_func_full P c s a closest u now) as [[[e c1] s1] a1]. cbn [pr] in L. rewrite <- L.
+      destruct e; reflexivity.
+Qed.
+
+Notation step_full := (step_full sig sv hash vhash bid_hash an hn W ask rank).
+Notation step := (step sig sv hash vhash bid_hash W ask rank).
+
+(* EvidenceRun's copy of the call tree is Model's: dropping the full evidence gives Model.step *)
+Lemma step_full_refines : forall P c s o, pr (step_full P c s o) = step P c s o.
+Proof.
+  intros P c s o. destruct o as [h now|now]; cbn [EvidenceRun.step_full C09.Model.step].
+  - unfold EvidenceRun.verify_at_full, C09.Model.verify_at.
+    destruct (h <=? 0); [reflexivity|].
+    destruct (if last_height sig c <? h then None else store_lookup sig (cl_store sig c) h); [reflexivity|].
+    destruct (light_block_from_primary sig W ask rank c s h) as [[[b|e] c1] s1]; [apply vlb_full_pr | reflexivity].
+  - unfold EvidenceRun.update_full, C09.Model.update.
+    destruct (last_height sig c =? -1); [reflexivity|].
+    destruct (light_block_from_primary sig W ask rank c s 0) as [[[b|e] c1] s1]; [|reflexivity].
+    destruct (last_height sig c <? lb_height sig b); [apply vlb_full_pr | reflexivity].
+Qed.
+
+End Ref.
